@@ -1335,6 +1335,35 @@ def k_zero_size(chk, ctx, d, tmp):
         text = ' '.join(str(x) for x in shape) + ' unfolded\n\n\n'
         k_fromfile(chk, ctx, d, tmp, text, 'from_file_zero_size', note='zero-size')
 
+def l3_array_stream(chk, ctx, cs, tmp, seen):
+    """several arrays written one after another through ONE open file object and read back one after another through one open
+    file object (the documented file-object interface of the generic array writer/reader): each comes back as written, i.e. a read
+    consumes exactly its own array"""
+    dadi = ctx['dadi']
+    chk.l3(('array-stream', len(cs))); chk.stat('l3_array_stream')
+    inp = dict(kind='array_stream', cases=cs)
+    path = tmp.path('.txt')
+    arrs = [np.array(case_vals(c), dtype=float).reshape(c['shape']) for c in cs]
+    try:
+        with open(path, 'w') as f:
+            for c, a in zip(cs, arrs):
+                dadi.Numerics.array_to_file(a, f, precision=c['precision'], comment_lines=list(c['comments']))
+        got = []
+        with open(path, 'r') as f:
+            for c in cs:
+                got.append(dadi.Numerics.array_from_file(f, return_comments=True))
+    except Exception as e:
+        fail_once(chk, seen, 'array_stream:%s' % type(e).__name__, '%d arrays written through one file object, read back through one file object: raised %s: %s' % (len(cs), type(e).__name__, e), inp)
+        return
+    for k, (c, (b, coms)) in enumerate(zip(cs, got)):
+        bad = None
+        if tuple(b.shape) != tuple(c['shape']): bad = 'shape %r' % (tuple(b.shape),)
+        elif check_values(c['precision'], case_vals(c), np.asarray(b, dtype=float).ravel().tolist()): bad = 'values: ' + check_values(c['precision'], case_vals(c), np.asarray(b, dtype=float).ravel().tolist())
+        elif coms != [x.strip() for x in c['comments']]: bad = 'comments %r' % (coms,)
+        if bad:
+            fail_once(chk, seen, 'array_stream:' + bad.split(' ')[0].rstrip(':'), 'array number %d of %d read back through one file object: %s' % (k + 1, len(cs), bad), inp)
+            return
+
 # ------------------------------------------------------------------ one case, all parts
 def run_case(chk, ctx, c, tmp, rng, seen, heavy=True):
     d = ctx['driver']
@@ -1347,6 +1376,11 @@ def run_case(chk, ctx, c, tmp, rng, seen, heavy=True):
     masked = bool(rng.random() < 0.5)
     t_arr = l3_array(chk, ctx, c, tmp, masked, bool(rng.random() < 0.3), seen)
     l3_cross(chk, ctx, c, tmp, seen)
+    prev = ctx.setdefault('_c14_prev_cases', [])
+    if c['shape'] and int(np.prod(c['shape'])) > 0:
+        prev.append(c); del prev[:-3]
+        if len(prev) >= 2:
+            l3_array_stream(chk, ctx, list(prev), tmp, seen)
     if not have:
         return
     if t_plain is not None:
@@ -1496,6 +1530,8 @@ def replay(chk, ctx, data):
             k_arr_from(chk, ctx, ctx['driver'], tmp, inp['text'], 'array_from_file', inp.get('note'))
         elif inp.get('kind') in ('new', 'method', 'finalize') and 'case' in inp:
             run_case(chk, ctx, norm_case(inp['case']), tmp, rng, seen)
+        elif inp.get('kind') == 'array_stream' and 'cases' in inp:
+            l3_array_stream(chk, ctx, [norm_case(c) for c in inp['cases']], tmp, seen)
         elif inp.get('kind') == 'cross' and 'case' in inp:
             run_case(chk, ctx, norm_case(inp['case']), tmp, rng, seen)
         elif inp.get('kind') == 'fmt':
